@@ -30,6 +30,7 @@ func main() {
 		Name: "wsim",
 		Props: map[string]sim.PropSpec{
 			"C01": {Run: runC01, Modes: []string{"generated", "corpus", "generated"}},
+			"C02": {Run: runC02, Modes: []string{"generated", "corpus", "axioms", "generated", "flow"}},
 		},
 	})
 }
@@ -39,6 +40,18 @@ type program struct {
 	strct *a.Struct
 	funcs map[t.ID]*a.Func
 	pubs  []*a.Func
+	// C02: the fact list the checker held before each statement, and how often
+	// the checker visited the statement (facts of a statement visited more than
+	// once are ambiguous and not evaluated).
+	facts  map[factKey][]*a.Expr
+	visits map[factKey]int
+}
+
+// factKey: before a statement, or (after) at the end of the block whose last
+// statement it is.
+type factKey struct {
+	stmt  *a.Node
+	after bool
 }
 
 // load runs the working tree's front end. A non-nil error means "rejected".
@@ -59,10 +72,16 @@ func load(src string) (p *program, err error) {
 	if err != nil {
 		return nil, err
 	}
+	facts, visits := map[factKey][]*a.Expr{}, map[factKey]int{}
+	installFactObserver(func(fn *a.Func, stmt *a.Node, after bool, fs []*a.Expr) {
+		k := factKey{stmt, after}
+		facts[k] = fs
+		visits[k]++
+	})
 	if _, err := check.Check(tm, []*a.File{file}, nil); err != nil {
 		return nil, err
 	}
-	p = &program{tm: tm, funcs: map[t.ID]*a.Func{}}
+	p = &program{tm: tm, funcs: map[t.ID]*a.Func{}, facts: facts, visits: visits}
 	for _, n := range file.TopLevelDecls() {
 		switch n.Kind() {
 		case a.KStruct:
@@ -121,7 +140,7 @@ type execResult struct {
 }
 
 // execute runs a seeded history of public calls on a fresh receiver.
-func execute(p *program, tp *sim.Tape, ncalls int, observer func(*interp, *a.Func, *a.Node)) (res execResult) {
+func execute(p *program, tp *sim.Tape, ncalls int, observer func(*interp, *a.Func, *a.Node, bool)) (res execResult) {
 	in := &interp{tm: p.tm, funcs: p.funcs, strct: p.strct, this: map[t.ID]*val{}, maxStep: 200000, observer: observer}
 	defer func() {
 		res.checks, res.steps = in.nChecks, in.steps
